@@ -602,7 +602,11 @@ class Engine:
             a = self.eval_operand(st, depth, rv.args[0])
             ty, kind = rv.extra
             if kind == 'IntToFloat' and isinstance(a, IV) and getattr(self.env, 'ieee', False):
-                return FP(z3.fpToFP(RNE, z3.ToReal(a.t), F64))
+                # via a 64-bit vector (z3 only converts *numeral* reals to FP precisely); the integer must fit
+                lo, hi = INT_RANGES.get(a.ty, (0, 2 ** 64 - 1))
+                st.require(z3.And(a.t >= max(lo, -2 ** 63), a.t <= min(hi, 2 ** 63 - 1)), 'integer fits the 64-bit conversion')
+                bv = z3.Int2BV(a.t, 64)
+                return FP(z3.fpSignedToFP(RNE, bv, F64) if lo < 0 else z3.fpUnsignedToFP(RNE, bv, F64))
             if kind == 'FloatToInt' and isinstance(a, FP):
                 # `as usize`/`as u64`: saturating, NaN -> 0; encoded for values in [0, 2^53] only (side-condition)
                 lo, hi = INT_RANGES.get(ty.strip(), (None, None))
